@@ -138,9 +138,10 @@ def _foreign_print(*a, **k):
     pass
 
 
-def state(ngc, G, cov, prof, buf, x, D, warn, end, pos, foreign=False, pfault=False):
+def state(ngc, G, cov, prof, buf, x, D, warn, end, pos, foreign=False, pfault=False, dp=False):
     global LAST
     ngc = ci(ngc, 0, 3)
+    dp = cb(dp)          # the same --path directory is given twice (wrapper-script defaults plus command line)
     pfault = cb(pfault)          # a fault while the features are shut down: the profiler finds no statistics, its global_teardown raises
     G, cov, prof, buf, x, D, foreign = map(cb, (G, cov, prof, buf, x, D, foreign))
     warn = pick(WARN, warn)
@@ -161,6 +162,8 @@ def state(ngc, G, cov, prof, buf, x, D, warn, end, pos, foreign=False, pfault=Fa
         argv += ['-x']
     if D:
         argv += ['-D']
+    if dp:
+        argv += ['--path', '/verif-no-such-dir', '--path', '/verif-no-such-dir']
     with untraced():
         fs, ft = install_fakes()
         FakeProfiler.fault = pfault
@@ -219,6 +222,9 @@ def state(ngc, G, cov, prof, buf, x, D, warn, end, pos, foreign=False, pfault=Fa
                 raise
             raised = type(e).__name__
         after = snapshot(fs, ft)
+        import sys as _sys
+        while '/verif-no-such-dir' in _sys.path:
+            _sys.path.remove('/verif-no-such-dir')
     with untraced():
         diff = sorted(k for k in before if before[k] != after[k])
         why = None
@@ -236,15 +242,15 @@ def state_reach(*a):
     return LAST[5] is None and LAST[4] == 'KeyboardInterrupt' and len(LAST[7]) == 2 and LAST[8] and LAST[8][0][:1] == ('enable',)
 
 
-_P = [('ngc', 'int'), ('G', 'bool'), ('cov', 'bool'), ('prof', 'bool'), ('buf', 'bool'), ('x', 'bool'), ('D', 'bool'), ('warn', 'int'), ('end', 'int'), ('pos', 'int'), ('foreign', 'bool'), ('pfault', 'bool')]
+_P = [('ngc', 'int'), ('G', 'bool'), ('cov', 'bool'), ('prof', 'bool'), ('buf', 'bool'), ('x', 'bool'), ('D', 'bool'), ('warn', 'int'), ('end', 'int'), ('pos', 'int'), ('foreign', 'bool'), ('pfault', 'bool'), ('dp', 'bool')]
 _C = ', '.join(n for n, _ in _P)
 _B = '(not pfault or prof) and 0 <= ngc <= 3 and 0 <= warn < %d and 0 <= end < %d and 0 <= pos <= 1 and (not D or end != 1)' % (len(WARN), len(ENDS))
-_Q = _B + ' and (not pfault or (not foreign and warn == 0 and ngc == 0)) and warn <= 2 and (G + cov + prof + buf + x + D <= 2) and (not foreign or (warn == 0 and ngc <= 1 and (ngc != 0) + G + cov + prof + buf + x + D <= 1))'
+_Q = _B + ' and (not dp or (not foreign and not pfault and warn == 0 and (ngc == 1 or G) and cov + prof + buf + x + D == 0)) and (not pfault or (not foreign and warn == 0 and ngc == 0)) and warn <= 2 and (G + cov + prof + buf + x + D <= 2) and (not foreign or (warn == 0 and ngc <= 1 and (ngc != 0) + G + cov + prof + buf + x + D <= 1))'
 _T = _B
 
 
 def _v(**kw):
-    v = dict(ngc=1, G=True, cov=True, prof=True, buf=True, x=False, D=False, warn=0, end=0, pos=0, foreign=False, pfault=False)
+    v = dict(ngc=1, G=True, cov=True, prof=True, buf=True, x=False, D=False, warn=0, end=0, pos=0, foreign=False, pfault=False, dp=False)
     v.update(kw)
     return v
 
@@ -270,6 +276,6 @@ SPEC = {
          'reach': 'state_reach', 'reach_bounds': {'quick': _B + ' and end == 4 and ngc == 1 and G and cov and prof and not D and warn == 0',
                                                   'thorough': _B + ' and end == 4 and ngc == 1 and G and cov and prof and not D and warn == 0'},
          'timeout': {'quick': 400, 'thorough': 1700},
-         'fidelity': [_v(), _v(end=4, pos=1), _v(end=2, D=True, ngc=3, warn=1), _v(end=3, x=True, warn=3, cov=False), _v(end=5, buf=False, prof=False), _v(foreign=True, end=1), _v(foreign=True, end=4, pos=1), _v(foreign=True, G=True, cov=False, prof=False, buf=False, ngc=0), _v(foreign=True, ngc=2, G=False, cov=False, prof=False, buf=False, end=4), _v(pfault=True), _v(pfault=True, end=4, G=False, buf=False, ngc=0)]},
+         'fidelity': [_v(), _v(end=4, pos=1), _v(end=2, D=True, ngc=3, warn=1), _v(end=3, x=True, warn=3, cov=False), _v(end=5, buf=False, prof=False), _v(foreign=True, end=1), _v(foreign=True, end=4, pos=1), _v(foreign=True, G=True, cov=False, prof=False, buf=False, ngc=0), _v(foreign=True, ngc=2, G=False, cov=False, prof=False, buf=False, end=4), _v(pfault=True), _v(pfault=True, end=4, G=False, buf=False, ngc=0), _v(dp=True, cov=False, prof=False, buf=False), _v(dp=True, end=4, ngc=2)]},
     ],
 }
